@@ -286,6 +286,8 @@ def fi_case(rng, tier, ci, stats):
     d = rng.choice([2, 3, 3, 4])
     N = [rng.randint(2, 9 if d <= 3 else 5) for _ in range(d)]
     mode = rng.choice(["single", "list-d", "list-other"])
+    if ci % 4 == 3:
+        mode = "list-mixed"           # deterministic family: 4-5 argument tensors whose TT ranks differ and interleave
     eps = 10.0 ** rng.uniform(-10, -4)
     seed = rng.randrange(1 << 30)
     label = "function_interpolate/%s/d%d" % (mode, d)
@@ -308,6 +310,35 @@ def fi_case(rng, tier, ci, stats):
                 return v * v + 1.0
             y = IP.function_interpolate(f, z, eps=eps, nswp=12)
             ref = z.full() ** 2 + 1.0
+        elif mode == "list-mixed":
+            # argument j takes its values in [j, j+1) (disjoint ranges: a column can only come from its own argument); rank-one coordinate
+            # tensors and rank-two sums of two coordinates are interleaved ([1,2,2,1] / [2,1,1,2,1] rank signatures); f is not symmetric
+            vs = [tn.linspace(0.0, 0.4, n, dtype=tn.float64) for n in N]
+            Xs = torchtt.meshgrid(vs)
+            pat = [[1, 2, 2, 1], [2, 1, 1, 2, 1], [1, 2, 1, 2]][ci % 3]
+            use = []
+            for j, rk in enumerate(pat):
+                a = Xs[j % d]
+                t = (a + float(j)) if rk == 1 else (a + Xs[(j + 1) % d] * 0.5 + float(j))
+                use.append(t.round(1e-14))
+            dens = [dense_of(t) for t in use]
+            wts = [1.0 + 0.7 * j for j in range(len(use))]
+
+            def f(v, use=use, dens=dens, wts=wts):
+                if v.dim() != 2 or v.shape[1] != len(use):
+                    box["bad"] = "argument matrix has shape %s for %d argument tensors" % (tuple(v.shape), len(use))
+                    return v.sum(1)
+                for k in range(len(use)):
+                    ent = dens[k].reshape(-1)
+                    srt, _ = tn.sort(ent)
+                    col = v[:, k].reshape(-1).to(tn.float64)
+                    pos = tn.searchsorted(srt, col).clamp(0, srt.numel() - 1)
+                    near = tn.minimum((srt[pos] - col).abs(), (srt[(pos - 1).clamp(0)] - col).abs())
+                    if float(near.max()) > 1e-9 * (float(ent.abs().max()) + 1e-300):
+                        box["bad"] = "column %d holds a value that is not an entry of argument tensor %d (distance %.3g)" % (k, k, float(near.max()))
+                return 1.0 / (1.0 + sum(w * v[:, k] for k, w in enumerate(wts)))
+            y = IP.function_interpolate(f, use, eps=eps, nswp=12)
+            ref = 1.0 / (1.0 + sum(w * dk for w, dk in zip(wts, dens)))
         else:
             vs = [tn.linspace(0.0, 1.0, n, dtype=tn.float64) for n in N]
             Xs = torchtt.meshgrid(vs)
